@@ -185,6 +185,21 @@ class Ctx:
         a, b = got[1:], spec[1:]
         if resolve(a) == resolve(b):
             return True
+        # a renamed INSTANCE FIELD: the specified field is not assigned anywhere in the class any more, and the derived one
+        # stores, in __init__, the constructor parameter the specified field is named after (`self._strand_idx = slice_idx`
+        # where `self._slice_idx` is specified): the same datum under a new private name
+        import ast as _ast
+
+        stores = {}
+        for c in ci.mro or [ci]:
+            init = c.members.get("__init__")
+            if init is None:
+                continue
+            for n in _ast.walk(init.node):
+                if isinstance(n, _ast.Assign) and len(n.targets) == 1 and isinstance(n.targets[0], _ast.Attribute) and isinstance(n.targets[0].value, _ast.Name) and n.targets[0].value.id == "self" and isinstance(n.value, _ast.Name):
+                    stores.setdefault(n.targets[0].attr, n.value.id)
+        if b not in stores and self.repo.lookup(ci, b) is None and stores.get(a) is not None and stores[a] == b.lstrip("_"):
+            return True
         for sub in ci.all_subclasses() if hasattr(ci, "all_subclasses") else []:
             ci_saved, ci = ci, sub
             try:
